@@ -201,10 +201,10 @@ theorem void_case_insensitive (cfg : Cfg) (fileIdx : Nat) (toks toks' : List HS.
     (h : Aligned (RecasedVoid cfg) toks toks') :
     mapRes (mapN lowD) (buildTreeS cfg fileIdx toks' tbl) = mapRes (mapN lowD) (buildTreeS cfg fileIdx toks tbl) := by
   have e : ∀ r : LoadRes (List Item) × Tbl,
-      mapRes (mapN lowD) (mapRes assemble r) = mapRes assemble (mapRes (List.map (mapItem lowD)) r) := by
+      mapRes (mapN lowD) (mapRes assemble r) = mapRes assemble (mapRes (List.map (vmapItem lowD)) r) := by
     intro r
     rw [mapRes_mapRes, mapRes_mapRes]
-    exact mapRes_congr (fun items => assemble_map lowD lowD_value lowD_rootD items) r
+    exact mapRes_congr (fun items => vassemble_map lowD lowD_value lowD_rootD items) r
   unfold buildTreeS
   rw [e, e, compileToks_recase cfg h]
 
